@@ -371,6 +371,25 @@ func BuildDecoy(m, decoy *model.Packet, plan []Step) mq.ControlPacket {
 	return p
 }
 
+// WithRepeats makes some scalar setter calls happen two or three times in a
+// row with the same value (idempotent by the last-write-wins contract).
+func WithRepeats(m *model.Packet, plan []Step, pick func(i int) int) []Step {
+	ss := Setters(m.Type)
+	var out []Step
+	for i, st := range plan {
+		out = append(out, st)
+		if st.Decoy || ss[st.Setter].IsList {
+			continue
+		}
+		for k := pick(i); k > 0; k-- {
+			again := st
+			again.Probe = 0
+			out = append(out, again)
+		}
+	}
+	return out
+}
+
 // WithDecoys inserts, for the scalar steps selected by pick, a decoy call of
 // the same setter somewhere before the real call.
 func WithDecoys(m *model.Packet, plan []Step, pick func(i int) (use bool, before int)) []Step {
